@@ -15,6 +15,13 @@ def plan(ctx):
                               bounds="dict over keys {'1','a','None'} (presence symbolic, values symbolic); key from a pool of 15 "
                                      "(int, Decimal 1 / 1.0 / 1.50 / -0, bool, None, strings)",
                               desc=f"eval({text!r}) vs map model with str-normalised keys"))
+    for f in range(5):
+        obs.append(Obligation(f"literal_fresh.t{f}", "xh", "c14", "literal_fresh", param={"f": f}, timeout=T, bounds="host int symbolic",
+                              desc=f"eval({h.FRESH[f][0]!r}): a literal inside a lambda body is a new container on every call"))
+    for vop in ("remove", "index_of", "in"):
+        obs.append(Obligation(f"list.values_decimal.{vop}", "xh", "c14", "list_values_decimal", param={"vop": vop}, timeout=T,
+                              bounds="list of up to 4 Decimals (2, 2.5, 0, -1.5) + an int; value from 11 Decimals incl. fractions (finite domain)",
+                              desc=f"{vop} by VALUE with fractional decimals vs the sequence model"))
     for w, text in enumerate(h.WRITE):
       for r in range(6):
         obs.append(Obligation(f"key_roundtrip.w{w}.r{r}", "xh", "c14", "key_roundtrip", param={"w": w, "r": r}, timeout=T,
